@@ -14,7 +14,7 @@ PROPS = {
   'C17': {'families': [('chess', 400, 24000)]},
   'C04': {'families': [('search', 120, 6000), ('deep', 160, 20000), ('dialog', 60, 3000), ('conc', 60, 3000)]},
   'C05': {'families': [('search', 120, 6000), ('time', 3000, 300000), ('timed', 40, 1500), ('dialog', 60, 2000), ('conc', 60, 3000)]},
-  'C13': {'families': [('search', 120, 6000), ('deep', 60, 8000)]},
+  'C13': {'families': [('search', 120, 6000), ('deep', 200, 8000)]},
   'C06': {'families': [('conc', 150, 8000), ('dialog', 100, 4000), ('proc', 12, 300)]},
   'C07': {'families': [('go', 4000, 400000), ('dialog', 150, 6000), ('proc', 10, 200)]},
   'C08': {'families': [('time', 5000, 1000000), ('gotime', 1500, 100000)]},
